@@ -32,6 +32,10 @@ type CandidatePair struct {
 	state                    CandidatePairState
 	nominated                bool
 	nominateOnBindingSuccess bool
+	// renominateOnBindingSuccess records that the deferred nomination carried a
+	// nomination value (renomination): once the pair is valid it is selected
+	// regardless of pair priorities.
+	renominateOnBindingSuccess bool
 
 	// stats
 	currentRoundTripTime int64 // in ns
